@@ -7,6 +7,7 @@
  *   m:<name> <operand> ...          method call `(:name a0 a1 ...)`
  *   <op> <operand> [<operand>]      op = + - * / div mod % band bor bxor blshift brshift brushift bnot
  *                                        < <= > >= = not= compare cmp int/s64 int/u64 int/to-number
+ *                                        math/floor math/ceil math/trunc math/round math/abs math/gcd math/lcm
  *   cmpsd <int64 decimal> <hex16>   compare_int64_double called directly
  *   cmpud <uint64 decimal> <hex16>  compare_uint64_double called directly
  *   imm <op> <operand> <int>        compiled `(fn [x] (<op> x <int>))`  (immediate opcodes, janet_mcall path)
@@ -98,6 +99,7 @@ static void print_error(Janet e) {
     else if (!strncmp(m, "int/to-bytes: expected an int/s64 or int/u64", 44)) printf("err:tobytestype\n");
     else if (!strncmp(m, "arity mismatch", 14)) printf("err:arity\n");
     else if (!strncmp(m, "unknown method", 14)) printf("err:nomethod\n");
+    else if (!strncmp(m, "bad slot", 8)) printf("err:badslot\n");
     else {
         printf("err:other:");
         for (const char *p = m; *p; p++) putchar(*p == ' ' || *p == '\n' ? '_' : *p);
